@@ -68,6 +68,9 @@ def callable_symbols(it, legacy):
     return out
 
 
+_hang = {"n": 0, "skip": 0}
+
+
 class Runner:
     def __init__(self, legacy):
         from ckl.parser import parse_script
@@ -94,6 +97,14 @@ class Runner:
                 self.env.put(k, self.fresh(i))
         except BaseException as e:  # noqa  (building an operand value is evaluation of a literal: no host exception there either)
             return ('host', 'building the operand ' + POOL_SRC[i] + ' raises ' + type(e).__name__ + ": " + str(e)[:80])
+        # a tree on which evaluation hangs for many operand tuples would cost 2 s of CPU for each: after a few time-outs in this worker
+        # the bound shrinks, after many the remaining tuples are only sampled (hanging tuples are already in hand and are re-run generously)
+        if limit == 2 and _hang["n"] >= 6:
+            limit = 0.4
+            if _hang["n"] >= 60:
+                _hang["skip"] += 1
+                if _hang["skip"] % 20:
+                    return ('val',)
         try:
             with core.time_limit(limit):
                 v = node.evaluate(self.env)
@@ -101,6 +112,7 @@ class Runner:
                     return ('host', 'evaluate returned None')
                 return ('val',)
         except core.Timeout:
+            _hang["n"] += 1
             return ('timeout',)
         except CklRuntimeError as e:
             if e.value is None or not hasattr(e.value, "isString"):
